@@ -28,6 +28,7 @@ type NodeSpec struct {
 	Cap       int   `json:"cap"`    // 0 = 2000
 	Reliable  bool  `json:"reliable"`
 	Initiator bool  `json:"initiator"`
+	Host      int   `json:"host,omitempty"` // 0 = own host; k>0 = shares host k with other nodes
 }
 
 // BlockSpec is one block of the scenario tree: parent id (0 = genesis).
@@ -49,9 +50,11 @@ type Scenario struct {
 	Forbidden          int         `json:"forbidden"`   // block id on the forbidden list (0 = none)
 	// C07: BadBlock is the header whose delivery is misbehaviour (the forbidden block, or the
 	// block contradicting a checkpoint); BadNode delivers it; BanExpected: the engine bans for it.
-	BadBlock    int  `json:"bad_block,omitempty"`
-	BadNode     int  `json:"bad_node,omitempty"`
-	BanExpected bool `json:"ban_expected,omitempty"`
+	BadBlock    int   `json:"bad_block,omitempty"`
+	BadNode     int   `json:"bad_node,omitempty"`
+	BadNodes    []int `json:"bad_nodes,omitempty"` // further misbehaving nodes (same host as BadNode)
+	BanExpected bool  `json:"ban_expected,omitempty"`
+	BanSeconds  int   `json:"ban_seconds,omitempty"` // configured ban duration (default 600)
 }
 
 // Event is one environment step.
@@ -70,36 +73,38 @@ func (e Event) String() string {
 
 // Outcome is what one execution observed.
 type Outcome struct {
-	Key        string   // canonical state after the prefix
-	Enabled    []Event  // events enabled in that state
-	Converged  bool     // fair closure reached the expected tip
-	ClosureLog []string // what the closure did
-	TipHeight  int32
-	WantTip    string
-	GotTip     string
-	Problems   []string // safety problems observed (panic in engine, wrong locator, ...)
-	NodeLogs   []string
-	Sent       [][]string // per node: getheaders the service sent (first locator height..stop height)
-	StoreRows  []core.Row
-	Elapsed    int
-	Banned     []string
-	Disconnected []bool
-	Leak         string
-	Containment  []string
-	Misbehaved   bool
-	SyncPeerNode int // legacy: node index of the sync peer (-1 none)
-	Class        string
+	Key              string   // canonical state after the prefix
+	Enabled          []Event  // events enabled in that state
+	Converged        bool     // fair closure reached the expected tip
+	ClosureLog       []string // what the closure did
+	TipHeight        int32
+	WantTip          string
+	GotTip           string
+	Problems         []string // safety problems observed (panic in engine, wrong locator, ...)
+	NodeLogs         []string
+	Sent             [][]string // per node: getheaders the service sent (first locator height..stop height)
+	StoreRows        []core.Row
+	Elapsed          int
+	Banned           []string
+	Disconnected     []bool
+	Leak             string
+	ClosureAnnounced bool
+	NotCurrent       bool // tip below the last checkpoint: announcements of non-sync peers are ignored by design
+	Containment      []string
+	Misbehaved       bool
+	SyncPeerNode     int // legacy: node index of the sync peer (-1 none)
+	Class            string
 }
 
 type world struct {
-	sc      *Scenario
-	u       *core.Universe
-	blocks  []block // by id; [0] = genesis
-	rig     *core.Rig
-	nodes   []*Node
-	legacy  *p2p.VerifServer
-	exp     []*exppeer.Peer // experimental peers, per node (nil if not connected)
-	elapsed int
+	sc       *Scenario
+	u        *core.Universe
+	blocks   []block // by id; [0] = genesis
+	rig      *core.Rig
+	nodes    []*Node
+	legacy   *p2p.VerifServer
+	exp      []*exppeer.Peer // experimental peers, per node (nil if not connected)
+	elapsed  int
 	connects []int
 	problems []string
 	peersMap map[*legacypeer.Peer]*legacypeer.SyncState
@@ -188,8 +193,9 @@ func (w *world) apply(e Event) {
 	switch e.Kind {
 	case "connect":
 		w.connect(e.Node)
-		if w.sc.BadBlock > 0 && e.Node == w.sc.BadNode && w.misbehavedAt >= 0 && w.sc.BanExpected {
+		if w.sc.BadBlock > 0 && w.isBad(e.Node) && w.misbehavedAt >= 0 && w.sc.BanExpected {
 			synctest.Wait()
+			banSeconds := w.banSeconds()
 			banned := w.elapsed-w.misbehavedAt < banSeconds
 			conn := w.nodes[e.Node].isConnected()
 			if banned && conn {
@@ -201,7 +207,7 @@ func (w *world) apply(e Event) {
 		}
 	case "deliver":
 		n := w.nodes[e.Node]
-		if n.Deliver() && w.sc.BadBlock > 0 && e.Node == w.sc.BadNode {
+		if n.Deliver() && w.sc.BadBlock > 0 && w.isBad(e.Node) {
 			bad := false
 			for _, h := range n.lastReply {
 				if h.BlockHash() == chainhash.Hash(w.blocks[w.sc.BadBlock].Hash) {
@@ -233,7 +239,24 @@ func (w *world) apply(e Event) {
 	w.checkContainment()
 }
 
-const banSeconds = 600
+func (w *world) banSeconds() int {
+	if w.sc.BanSeconds > 0 {
+		return w.sc.BanSeconds
+	}
+	return 600
+}
+
+func (w *world) isBad(node int) bool {
+	if node == w.sc.BadNode {
+		return true
+	}
+	for _, k := range w.sc.BadNodes {
+		if k == node {
+			return true
+		}
+	}
+	return false
+}
 
 // checkContainment (C07): the forbidden header is never stored or served, and whatever descends
 // from it can only be an orphan.
@@ -348,6 +371,9 @@ func (w *world) key() string {
 		for k, v := range d {
 			ks = append(ks, fmt.Sprintf("%s=%v", k, v))
 		}
+		for h, left := range w.legacy.Banned() {
+			ks = append(ks, fmt.Sprintf("ban[%s]=%d", h, left))
+		}
 		sort.Strings(ks)
 		eng = strings.Join(ks, ",")
 	} else {
@@ -357,7 +383,7 @@ func (w *world) key() string {
 			}
 		}
 	}
-	return fmt.Sprintf("rows[%s] eng[%s] nodes[%s] t=%d connects=%v", strings.Join(rs, " "), eng, strings.Join(ns, " "), w.elapsed, w.connects)
+	return fmt.Sprintf("rows[%s] eng[%s] nodes[%s] t=%d connects=%v misbehavedAt=%d", strings.Join(rs, " "), eng, strings.Join(ns, " "), w.elapsed, w.connects, w.misbehavedAt)
 }
 
 func (w *world) enabled(maxConnects int) []Event {
@@ -399,10 +425,14 @@ func (w *world) enabled(maxConnects int) []Event {
 			}
 		}
 	}
-	if anyMuted || !anyPending {
+	// (with two connections of one host a peer may also simply be slow to answer)
+	if anyMuted || !anyPending || len(w.sc.BadNodes) > 0 {
 		secs := []int{35, 100, 200}
 		if w.sc.BanExpected {
 			secs = []int{35, 200, 600}
+			if w.sc.BanSeconds > 0 && w.sc.BanSeconds < 100 {
+				secs = []int{35}
+			}
 		}
 		for _, s := range secs {
 			ev = append(ev, Event{Kind: "tick", Sec: s})
@@ -436,6 +466,14 @@ func (w *world) reached(want block) bool {
 	return tip.CumulatedWork.Cmp(h.CumulatedWork) >= 0
 }
 
+// notCurrent: the tip is below the last configured checkpoint (HeaderService.IsCurrent is false),
+// in which state the default engine ignores block announcements of peers other than the sync peer.
+func (w *world) notCurrent() bool {
+	_, h := w.tipHash()
+	last := config.Checkpoints[len(config.Checkpoints)-1]
+	return h < last.Height
+}
+
 // closure runs the deterministic fair continuation: reliable nodes keep answering, a reliable
 // node is re-connected when none is connected, the clock advances in 35 s steps when nothing is
 // pending; at most 15 minutes of fake time.
@@ -465,6 +503,30 @@ func (w *world) closure(out *Outcome) {
 			}
 		}
 		if progressed {
+			continue
+		}
+		// the chain keeps growing: a connected reliable node announces its next block (by headers
+		// if it was asked to, else by inv)
+		mined := false
+		for i, n := range w.nodes {
+			if !n.Honest || !n.isConnected() {
+				continue
+			}
+			n.mu.Lock()
+			fut, sh := len(n.Future), n.sendHeaders
+			n.mu.Unlock()
+			if fut > 0 {
+				n.Announce(sh)
+				synctest.Wait()
+				out.ClosureLog = append(out.ClosureLog, fmt.Sprintf("announce(%d)", i))
+				out.ClosureAnnounced = true
+				mined = true
+				break
+			}
+		}
+		if mined {
+			want = w.expectedBest()
+			out.WantTip = want.Hash.Hex()
 			continue
 		}
 		if !anyHonestConn && reconnects < 3 {
@@ -512,7 +574,9 @@ func runInBubble(sc *Scenario, events []Event, closure bool, maxConnects int) (o
 	// environment seams
 	oldLookup, oldDial, oldCP, oldPick := config.Lookup, config.Dial, config.Checkpoints, vrand.Pick
 	config.Lookup = func(string) ([]net.IP, error) { return nil, errors.New("no dns in the bubble") }
-	config.Dial = func(string, string, time.Duration) (net.Conn, error) { return nil, errors.New("no dialing in the bubble") }
+	config.Dial = func(string, string, time.Duration) (net.Conn, error) {
+		return nil, errors.New("no dialing in the bubble")
+	}
 	cps := []chaincfg.Checkpoint{}
 	for _, id := range sc.Checkpoints {
 		h := chainhash.Hash(blocks[id].Hash)
@@ -535,12 +599,18 @@ func runInBubble(sc *Scenario, events []Event, closure bool, maxConnects int) (o
 	w.rig = core.NewRig(core.RigOpts{Cfg: func(c *config.AppConfig) {
 		c.P2P.DisableCheckpoints = sc.DisableCheckpoints
 		c.P2P.BanDuration = 10 * time.Minute
+		if sc.BanSeconds > 0 {
+			c.P2P.BanDuration = time.Duration(sc.BanSeconds) * time.Second
+		}
 	}})
 	for _, id := range sc.Initial {
 		core.SafeAdd(w.rig.Svc.Chains, blocks[id].Raw.Source())
 	}
 	for i, ns := range sc.Nodes {
 		n := &Node{ID: i, Addr: &net.TCPAddr{IP: net.ParseIP(fmt.Sprintf("10.0.0.%d", i+1)), Port: 8333}, Cap: ns.Cap, Honest: ns.Reliable, Initiator: ns.Initiator}
+		if ns.Host > 0 {
+			n.Addr = &net.TCPAddr{IP: net.ParseIP(fmt.Sprintf("10.0.9.%d", ns.Host)), Port: 8333 + i}
+		}
 		if n.Cap == 0 {
 			n.Cap = 2000
 		}
@@ -599,14 +669,17 @@ func runInBubble(sc *Scenario, events []Event, closure bool, maxConnects int) (o
 					reliableUp = true
 				}
 			}
-			if idle && reliableUp {
+			// ... and the reliable node had no chance to make itself heard: it had nothing new to
+			// announce during the fair continuation, or the service is not current (then the default
+			// engine ignores announcements of peers other than the sync peer)
+			if idle && reliableUp && (w.notCurrent() || !out.ClosureAnnounced) {
 				out.Class = "idle_lagging_sync_peer_keeps_role"
 			}
 		}
 		// second recognisable class: no sync peer at all although the reliable node is connected
 		// with a better chain (it was struck off the candidates when its advertised height fell
 		// behind our tip, and its later announcements arrived while we were not current)
-		if cand, _ := p2psync.VerifDump(w.legacy.Sync())["candidates"].(int); !out.Converged && out.SyncPeerNode < 0 && cand == 0 {
+		if cand, _ := p2psync.VerifDump(w.legacy.Sync())["candidates"].(int); !out.Converged && out.SyncPeerNode < 0 && cand == 0 && (w.notCurrent() || !out.ClosureAnnounced) {
 			for _, n := range w.nodes {
 				if n.Honest && n.isConnected() {
 					out.Class = "reliable_peer_connected_but_no_sync_candidate"
